@@ -182,6 +182,18 @@ impl<'g> LRState<'g> {
         self
     }
 
+    #[cfg(feature = "verif")]
+    pub(crate) fn verif_items(&self) -> Vec<crate::verif::VItem> {
+        self.items
+            .iter()
+            .map(|i| crate::verif::VItem {
+                prod: i.prod.0,
+                position: i.position,
+                follow: i.follow.borrow().iter().map(|f| f.0).collect(),
+            })
+            .collect()
+    }
+
     fn kernel_items(&self) -> Vec<&LRItem> {
         self.items.iter().filter(|i| i.is_kernel()).collect()
     }
